@@ -202,7 +202,7 @@ private:
             return fmt::format(
                 // clang-format off
 R"(
-    SBEPP_CPP20_CONSTEXPR std::size_t operator()(
+    SBEPP_CPP20_CONSTEXPR ::std::size_t operator()(
         ::sbepp::detail::size_bytes_tag) const noexcept
     {{
         return {header_size} + (*this)(::sbepp::detail::get_block_length_tag{{}});
@@ -215,10 +215,10 @@ R"(
         return fmt::format(
             // clang-format off
 R"(
-    SBEPP_CPP20_CONSTEXPR std::size_t operator()(
+    SBEPP_CPP20_CONSTEXPR ::std::size_t operator()(
         ::sbepp::detail::size_bytes_tag) const noexcept
     {{
-        const auto last = {last_member}();
+        const auto last = this->{last_member}();
         return ::sbepp::addressof(last) + ::sbepp::size_bytes(last)
                - (*this)(::sbepp::detail::addressof_tag{{}});
     }}
